@@ -6,5 +6,5 @@ export GOPROXY=off GOFLAGS=-mod=mod
 unset GOTOOLCHAIN GOSUMDB 2>/dev/null || true
 mkdir -p bin evidence replays
 ( cd h && go build -o ../bin/verif ./cmd/verif && go vet ./... >/dev/null 2>&1 || true )
-( cd h && go test -count=1 ./cfg/... ./lexnfa/... ./gen/... ) 
+( cd h && go test -count=1 ./cfg/ ./lexnfa/ ./spec/ -rapid.checks=400 -rapid.nofailfile )
 echo setup ok
